@@ -3,7 +3,7 @@ REPO ?= /repo
 B ?= build
 CXX = ccache g++
 SAN_DRV ?= -fsanitize=address -fsanitize=signed-integer-overflow,shift,bounds,integer-divide-by-zero,float-cast-overflow -fno-sanitize-recover=all
-SAN_IO ?= -fsanitize=address,undefined -fno-sanitize-recover=undefined
+SAN_IO ?= -fsanitize=address,undefined,float-cast-overflow -fno-sanitize-recover=undefined,float-cast-overflow
 DEFS = -DNDEBUG -DAMPL_MP_VERIF -DMP_DATE=20240320 -DMP_SYSINFO="\"Linux x86_64\"" -DMP_USE_ATOMIC -DMP_USE_HASH -DMP_USE_UNIQUE_PTR
 # src/expr-info.cc and nl-writer2/include/mp/nl-opcodes.h are generated (git-ignored) files of ampl/mp's own build
 # (gen-expr-info).  A built tree has them; a bare checkout (git worktree) does not: then they are generated into $(B)/gen.
